@@ -698,4 +698,42 @@ theorem exclusiveChk_sound (alts : List Alt) (h : exclusiveChk alts = true) : Ex
     exact (List.prefix_of_prefix_length_le hma.1 hmb.1 (Nat.le_of_eq hl)).eq_of_length hl
   · exact (shadow b hb a ha hl hmb hma).elim
 
+/-! ### scope of a custom substitution function, pretty-printing -/
+
+theorem outputReady_mapScope (c : Cfg) (i : Subst → PStr → PStr) (h : c.entity_substitution ≠ .none) (par : Option PStr)
+    (k : StrKind) (v : PStr) :
+    outputReady c i par k v = render (plain c) i par
+      (mapScope c.cdata_containing_tags c.empty_attributes_are_booleans (i c.entity_substitution) par (.str k v)) := by
+  have := render_mapScope c i h par (.str k v)
+  simpa [render] using this
+
+mutual
+theorem prettyItems_mapScope (c : Cfg) (i : Subst → PStr → PStr) (h : c.entity_substitution ≠ .none) (lv : Nat) (lit : Bool)
+    (par : Option PStr) (n : Node) :
+    prettyItems c i lv lit par n
+      = prettyItems (plain c) i lv lit par
+          (mapScope c.cdata_containing_tags c.empty_attributes_are_booleans (i c.entity_substitution) par n) := by
+  cases n with
+  | str k v =>
+    have h1 := outputReady_mapScope c i h par k v
+    simp only [mapScope] at h1 ⊢
+    by_cases hc : (k.verbatim || inCdata c.cdata_containing_tags par) = true
+    · simp only [hc, if_true, render] at h1 ⊢
+      simp only [prettyItems, h1]
+    · simp only [hc] at h1 ⊢
+      simp only [Bool.false_eq_true, if_false, prettyItems, h1, render]
+  | tag nm p as cbe pre ks =>
+    simp only [prettyItems, mapScope, mapScopeL_isEmpty, ← formatTag_mapAttr c i h,
+      ← prettyItemsL_mapScope c i h (lv + 1) _ (some nm) ks]
+theorem prettyItemsL_mapScope (c : Cfg) (i : Subst → PStr → PStr) (h : c.entity_substitution ≠ .none) (lv : Nat) (lit : Bool)
+    (par : Option PStr) (l : List Node) :
+    prettyItemsL c i lv lit par l
+      = prettyItemsL (plain c) i lv lit par
+          (mapScopeL c.cdata_containing_tags c.empty_attributes_are_booleans (i c.entity_substitution) par l) := by
+  cases l with
+  | nil => simp [prettyItemsL, mapScopeL]
+  | cons k ks =>
+    simp only [prettyItemsL, mapScopeL, ← prettyItems_mapScope c i h lv lit par k, ← prettyItemsL_mapScope c i h lv lit par ks]
+end
+
 end BS.Formatter
